@@ -45,6 +45,7 @@ class P(b1.Plugin):
         noise = [t for t in ("Debug",) if rng.random() < 0.35]
         if not with_eq and rng.random() < 0.3:
             noise.append("PartialEq")
+        td.type_spelling = True
         gen.finalize_attrs(rng, td, noise)
         return td
 
